@@ -400,6 +400,12 @@ func (c *Ctx) run() {
 		v := c.evalBool(r.E, env, fmt.Sprintf("requires %d", i))
 		c.asserts = append(c.asserts, v)
 	}
+	for i, r := range c.con.Valid {
+		env := c.baseEnv(st, c.entry)
+		v := c.evalBool(r.E, env, fmt.Sprintf("valid %d", i))
+		c.asserts = append(c.asserts, v)
+		c.definesUsed["validity assumed on entry of "+c.con.Name+": "+r.Src] = true
+	}
 	// loop ordinals
 	c.loopOrd = map[*ssa.BasicBlock]int{}
 	n := 0
